@@ -4,7 +4,7 @@
 #   tools/mutant_env.sh            create / refresh
 #   then: cd /var/tmp/mut/repo && git apply <patch>; cd /var/tmp/mut/verif && ./check Cxx; cd ../repo && git checkout -- .
 set -e
-M=/var/tmp/mut
+M=${1:-/var/tmp/mut}
 mkdir -p $M
 if [ -d $M/repo ]; then git -C /repo worktree remove --force $M/repo 2>/dev/null || rm -rf $M/repo; fi
 git -C /repo worktree prune
